@@ -17,7 +17,7 @@ def run(chk):
     thorough = chk.tier == "thorough"
     binary = vlib.harness_build()
     cl.model_check(chk, 4 if thorough else 3, big=False)
-    sc = cl.model_scenarios(chk, 2) + cl.model_scenarios(chk, 3, keep_every=1 if thorough else 12, offset=chk.seed + 5)
+    sc = cl.model_scenarios(chk, 2) + cl.model_scenarios(chk, 3, keep_every=1 if thorough else 24, offset=chk.seed + 5)
     # every end-of-day abort code behind a commit and a cancel that go idle, with and without a dangling pre-authorisation
     codes = range(256) if thorough else list(range(0, 256, 7)) + [160, 119]
     extra = []
@@ -27,6 +27,24 @@ def run(chk):
                 plan = [{"o": "ok"}, {"o": "ok", "status": {"amount": [1]}}, {"o": "pending"}] + ([{"o": "ok"}] if dang else []) + [{"o": "abort", "code": code}]
                 extra.append({"config": {"max": 1}, "term": {"dangling": dang}, "calls": [{"op": "begin", "token": [97]}, {"op": op, "token": [97], "amount": [1]}],
                               "plan": {"exchanges": plan}})
+    # histories in which an earlier call failed: the later call that leaves nothing open must still clean up
+    okp = {"o": "ok", "status": {"amount": [1]}}
+    for second in ("commit", "cancel"):
+        for code in (181, 160, 5):
+            for dang in ([], [77]):
+                tail = [{"o": "pending"}] + ([{"o": "ok"}] if dang else []) + [{"o": "ok"}]
+                extra.append({"config": {"max": 2}, "term": {"dangling": dang},
+                              "calls": [{"op": "begin", "token": [97]}, {"op": "cancel", "token": [97]}, {"op": "begin", "token": [98]},
+                                        {"op": second, "token": [98], "amount": [1]}],
+                              "plan": {"exchanges": [okp, {"o": "abort", "code": code}, okp, okp] + tail}})
+                extra.append({"config": {"max": 2}, "term": {"dangling": dang},
+                              "calls": [{"op": "begin", "token": [97]}, {"op": "begin", "token": [98]}, {"op": "cancel", "token": [97]},
+                                        {"op": second, "token": [98], "amount": [1]}],
+                              "plan": {"exchanges": [okp, okp, {"o": "abort", "code": code}, okp] + tail}})
+                extra.append({"config": {"max": 2}, "term": {"dangling": dang},
+                              "calls": [{"op": "begin", "token": [97]}, {"op": "begin", "token": [98]}, {"op": "commit", "token": [97], "amount": [2]},
+                                        {"op": second, "token": [98], "amount": [1]}],
+                              "plan": {"exchanges": [okp, okp, {"o": "abort", "code": code}, okp] + tail}})
     walks = cl.random_walks(chk.seed + 19, 1500 if thorough else 80, 40)
     out = cl.run_scenarios(binary, sc + extra + walks, wd, "c19")
     outs, ifl, pfl = cl.validate(chk, out, wd, "c19", shard=1500 if thorough else 400)
@@ -36,6 +54,6 @@ def run(chk):
     chk.cov["distinct_nontrivial"] = len(sc) + len(extra)
     chk.cov["rule"] = ("as C07 (all 2-call histories, %s 3-call history, random walks), plus %d end-of-day abort codes x {commit, cancel} x "
                        "{no dangling, dangling pre-authorisation}; P_C19 is evaluated over the terminal's request log of each call" % (
-                           "every" if thorough else "every 12th", len(list(codes))))
+                           "every" if thorough else "every 24th", len(list(codes))))
     chk.sample({"calls": extra[0]["calls"], "terminal_outcomes": extra[0]["plan"]["exchanges"]})
     chk.assumptions += ["fault-free connection; the pending query is answered by an 06 1E packet (its regular answer)"]
